@@ -33,7 +33,6 @@ OPS = [
     (r'None \| ', ''), (r'\bother\.clock\b', 'self.clock'), (r'\bself\.clock\b', 'other.clock'),
     (r'\bother\.deferred\b', 'self.deferred'), (r'&mut self\.', '&mut self.clone().'),
     (r'\.counter\b', '.counter.saturating_sub(1)'), (r'\.inc\(\)', '.clone()'),
-    (r'\.or_default\(\)', '.or_insert_with(Default::default)'),
 ]
 STMT = re.compile(r'^\s+([a-z_]+(\.[a-z_0-9]+)+\((.*)\);)\s*$')  # delete a call statement
 
@@ -46,7 +45,7 @@ def candidates():
         in_test = False
         for i, l in enumerate(lines):
             s = l.strip()
-            if s.startswith('#[cfg(test)]'):
+            if s.startswith('#[cfg(test)]') or s.startswith('#[cfg(all(test'):
                 in_test = True  # test modules sit at the end of the files
             if in_test:
                 continue
